@@ -25,7 +25,7 @@ def eighths(draw, shape):
     return draw(hnp.arrays(np.float64, shape, elements=st.integers(-32, 32).map(lambda v: v / 8)))
 
 
-MATRIX_KINDS = ["generic", "lattice", "eighths", "lowrank", "dup", "clustered", "scaled"]
+MATRIX_KINDS = ["generic", "lattice", "eighths", "lowrank", "dup", "clustered", "scaled", "tiny", "huge"]
 
 
 def matrix(draw, n, m, kind):
@@ -71,6 +71,12 @@ def matrix(draw, n, m, kind):
         ex = draw(hnp.arrays(np.int64, (m,), elements=st.integers(-4, 4)))
         g = draw(st.sampled_from([1e-3, 1.0, 1.0, 1e3]))
         return X * (10.0 ** ex) * g
+    if kind == "tiny":      # small units (e.g. positions in metres): absolute tolerances in the code must not matter
+        base = draw(st.sampled_from(["generic", "dup", "clustered"]))
+        return matrix(draw, n, m, base) * draw(st.sampled_from([1e-7, 1e-9, 1e-5]))
+    if kind == "huge":
+        base = draw(st.sampled_from(["generic", "dup", "lowrank"]))
+        return matrix(draw, n, m, base) * draw(st.sampled_from([1e4, 1e6]))
     raise ValueError(kind)
 
 
